@@ -843,12 +843,19 @@ func (L *LFacts) SitesOf(pred func(ssa.Instruction) bool) map[ssa.Instruction][]
 }
 
 // ReachFrom returns, for one root context, every reachable context with its BFS predecessor.
-func (L *LFacts) ReachFrom(root *LCtx) map[int]int {
+func (L *LFacts) ReachFrom(root *LCtx) map[int]int { return L.ReachFromAvoiding(root, nil) }
+
+// ReachFromAvoiding: like ReachFrom, but contexts for which stop returns true are not expanded
+// (they are reached, what lies below them only through other paths).
+func (L *LFacts) ReachFromAvoiding(root *LCtx, stop func(*LCtx) bool) map[int]int {
 	prev := map[int]int{root.ID: -1}
 	work := []*LCtx{root}
 	for len(work) > 0 {
 		c := work[0]
 		work = work[1:]
+		if stop != nil && c != root && stop(c) {
+			continue
+		}
 		ids := make([]int, 0, len(c.Succ))
 		for id := range c.Succ {
 			ids = append(ids, id)
